@@ -31,6 +31,7 @@ V(i) == CASE i = 1 -> [t |-> "int", v |-> 1]
           [] i = 7 -> [t |-> "str", v |-> 110]      \* '1' : the repr of the int 1
           [] i = 8 -> [t |-> "str", v |-> 111]      \* a string of 205 characters
           [] i = 9 -> [t |-> "obj", v |-> 120]      \* an instance of a user class
+          [] i = 10 -> [t |-> "tup", v |-> 130]     \* the tuple (1, 2): ONE argument, not two
           [] OTHER -> [t |-> "int", v |-> 7]
 NULL == [t |-> "NULL", v |-> 0]
 MARK == [t |-> "mark", v |-> 0]
